@@ -373,6 +373,20 @@ var scenarios = []scenario{
 			}
 			h.upload(h.next(), 700, "-")
 		})
+		// wrong entries for a package the mirror has ALREADY saved (upload_start below the next entry, inside the
+		// excess window), followed in the same request by packages it has not: nothing of the request may be
+		// believed (seed C15-7: "already saved" packages skipped without their subtree proof)
+		rd.one("wrong-saved", "f", 1000, noPlan(), func(h *hist) {
+			h.pending(600)
+			h.upload(0, 600, "-")
+			h.pending(1000)
+			for j := 0; j < 2; j++ {
+				for _, kind := range mutations[:10] {
+					h.uploadBody(256, 1000, "-", h.log.mutate(h.r, h.log.honestBody(256, 1000, -1), 256, 1000, j, kind))
+				}
+			}
+			h.upload(h.next(), 1000, "-")
+		})
 	}},
 	{"truncated", func(rd *runner) {
 		rd.run("g", 700, func(h *hist) {
